@@ -156,6 +156,65 @@ theorem bit_len_advances (b : BitBuffer) (src : List Byte) (off len : Nat) (h : 
   obtain ⟨b', h1, h2, h3, _, _⟩ := BitBuffer.writeBitsWithOffsetLen_spec b src off len h hs
   exact ⟨b', h1, h3, by rw [h2.1, h3]⟩
 
+/-- A write placed at a position inside the written bits (`with_write_position_at(p, |b| b.write_bits*(..))`)
+    is the naive in-place update: it succeeds, the bits `p .. p + len` become the source bits, every other
+    written bit, the bit length, the number of octets, the read cursor and the invariant stay as they were.
+    (Placing a write so that it reaches beyond the written bits is outside the property; the model covers
+    it and is compared there by the correspondence stream only.) -/
+theorem placed_write (b : BitBuffer) (p : Nat) (src : List Byte) (off len : Nat) (h : b.Inv)
+    (hs : off + len ≤ src.length * 8) (hp : p + len ≤ b.wp) :
+    ∃ b', b.atPos p (fun b => b.writeBitsWithOffsetLen src off len) = ok b' ∧ b'.Inv ∧
+      b'.wp = b.wp ∧ b'.rp = b.rp ∧ b'.buffer.length = b.buffer.length ∧
+      b'.abs = b.abs.take p ++ bitsOf src off len ++ b.abs.drop (p + len) := by
+  obtain ⟨b', h1, h2, h3, h4, h5, h6⟩ := BitBuffer.atPos_bits_spec b p src off len h hs hp
+  refine ⟨b', h1, h2, h3, h4, h5, ?_⟩
+  apply List.ext_getElem
+  · simp [BitBuffer.abs, h3]; omega
+  · intro i hi1 hi2
+    have hi : i < b.wp := by simpa [BitBuffer.abs, h3] using hi1
+    simp only [BitBuffer.abs] at *
+    rw [getElem_bitsOf, h6]
+    by_cases ha : i < p
+    · rw [List.getElem_append_left (by simp; omega), List.getElem_append_left (by simp; omega)]
+      simp [bitsOf]
+      intro h7; omega
+    · by_cases hb : i < p + len
+      · rw [List.getElem_append_left (by simp; omega), List.getElem_append_right (by simp; omega)]
+        simp only [List.length_take, length_bitsOf, getElem_bitsOf]
+        rw [if_pos (by omega)]
+        congr 1; omega
+      · rw [List.getElem_append_right (by simp; omega)]
+        simp only [List.length_append, List.length_take, length_bitsOf, List.getElem_drop,
+          getElem_bitsOf]
+        rw [if_neg (by omega)]
+        congr 1; omega
+
+/-- … in particular the single bit the crate itself patches (presence and extension bits): -/
+theorem placed_bit (b : BitBuffer) (p : Nat) (x : Bool) (h : b.Inv) (hp : p < b.wp) :
+    ∃ b', b.atPos p (fun b => b.writeBitsWithOffsetLen [if x then 0x80#8 else 0#8] 0 1) = ok b' ∧
+      b'.Inv ∧ b'.wp = b.wp ∧ b'.abs = b.abs.set p x := by
+  obtain ⟨b', h1, h2, h3, _, _, h6⟩ := placed_write b p [if x then 0x80#8 else 0#8] 0 1 h (by simp) (by omega)
+  refine ⟨b', h1, h2, h3, ?_⟩
+  rw [h6]
+  have hx : bitsOf [if x then 0x80#8 else 0#8] 0 1 = [x] := by cases x <;> decide
+  rw [hx]
+  apply List.ext_getElem
+  · simp [BitBuffer.abs]; omega
+  · intro i hi1 hi2
+    have hlen : b.abs.length = b.wp := by simp [BitBuffer.abs]
+    rw [List.getElem_set]
+    by_cases ha : i < p
+    · rw [List.getElem_append_left (by simp; omega), List.getElem_append_left (by simp; omega)]
+      simp [show p ≠ i by omega]
+    · by_cases hb : i = p
+      · subst hb
+        rw [List.getElem_append_left (by simp; omega), List.getElem_append_right (by simp; omega)]
+        simp [hlen]
+      · rw [List.getElem_append_right (by simp; omega)]
+        simp only [List.length_append, List.length_take, List.length_singleton, List.getElem_drop]
+        simp only [show p ≠ i by omega, ite_false]
+        congr 1; omega
+
 /-- reading back from the buffer: the mirror image, bounded by the *declared* length -/
 theorem buffer_read (b : BitBuffer) (dst : List Byte) (off len : Nat) (h : b.Inv)
     (hrp : b.rp ≤ b.wp) (hd : off + len ≤ dst.length * 8) :
@@ -189,5 +248,8 @@ example : bitStringCopyBulked [0#8, 0#8, 0#8, 0#8] 0 [0xff#8, 0xff#8, 0xff#8, 0x
     = ok [0xe0#8, 0x00#8, 0x01#8, 0xff#8, 0xff#8] := by decide
 example : (WOp.bits [0xAB#8, 0xCD#8] 3 9).Valid := by simp [WOp.Valid]
 example : (BitsView.mk [0xAA#8, 0xBB#8] 0 12).Inv := by simp [BitsView.Inv]
+-- `placed_write`: a 12-bit buffer, 5 bits from source offset 2 placed at position 3
+example : (BitBuffer.mk [0xff#8, 0xf0#8] 12 0).atPos 3 (fun b => b.writeBitsWithOffsetLen [0x00#8] 2 5)
+    = ok (BitBuffer.mk [0xe0#8, 0xf0#8] 12 0) := by decide
 
 end Asn1Verif.Props.C11
